@@ -288,7 +288,9 @@ def case_strategy(draw):
                       "v": draw(st.integers(0, 15))})
     opts = draw(st.lists(st.sampled_from([o[0] for o in OPTIONS]), min_size=0, max_size=7, unique=True))
     feats = draw(st.lists(st.sampled_from(["cfi", "nocfi-some", "strings", "comdat", "common", "gnu-property", "pad-syms",
-                                           "c-member", "archive", "debug", "fini_array", "preinit"]),
+                                           "c-member", "archive", "debug", "fini_array", "preinit",
+                                           # must-keep code sections: SHF_GNU_RETAIN functions, code (with CFI) in .init/.fini
+                                           "retain", "init-code"]),
                           max_size=6, unique=True))
     return {"kind": kind, "n_obj": n_obj, "fns": fns, "datas": datas, "tlss": tlss, "ifuncs": ifuncs, "sites": sites,
             "opts": opts, "feats": feats, "start_calls": draw(st.lists(st.integers(0, n_fn - 1), max_size=3, unique=True))}
@@ -562,6 +564,10 @@ class Prog:
                 comdat = "comdat" in self.feats and f["bind"] == "w"
                 if comdat:
                     L.append(f'    .section .text.{f["name"]},"axG",@progbits,{f["name"]},comdat')
+                elif "retain" in self.feats and f["v"] % 3 == 0:
+                    L.append(f'    .section .text.{f["name"]},"axR",@progbits')
+                elif "init-code" in self.feats and f["v"] % 5 == 1:
+                    L.append(f'    .section {".init" if f["v"] % 2 else ".fini"},"ax",@progbits')
                 else:
                     L.append(f'    .section .text.{f["name"]},"ax",@progbits')
                 L += self.bind_lines(f, "@function")
